@@ -78,6 +78,47 @@ class CallGraph:
                     out.append(c.methods[name].qual)
         return out
 
+    def _param_registries(self, f: FuncInfo, pname: str, depth: int = 0) -> list[str]:
+        """Classes of every registry that a caller hands to parameter pname of f (callers found by method name; a caller that
+        passes its own parameter on is followed)."""
+        key = (f.qual, pname)
+        memo = self.__dict__.setdefault("_param_reg_memo", {})
+        if key in memo:
+            return memo[key]
+        memo[key] = []
+        out: list[str] = []
+        params = [p for p in f.params() if p not in ("self", "cls")]
+        if pname not in params or depth > 3:
+            return out
+        idx = params.index(pname)
+        for g in self.prog.funcs.values():
+            for c in ast.walk(g.node):
+                if not isinstance(c, ast.Call):
+                    continue
+                fn = c.func
+                nm = fn.attr if isinstance(fn, ast.Attribute) else fn.id if isinstance(fn, ast.Name) else None
+                if nm != f.name:
+                    continue
+                arg = c.args[idx] if idx < len(c.args) and not any(isinstance(a, ast.Starred) for a in c.args[:idx + 1]) else next((k.value for k in c.keywords if k.arg == pname), None)
+                if arg is None:
+                    continue
+                while isinstance(arg, ast.Call) and isinstance(arg.func, (ast.Name, ast.Attribute)) and (arg.func.id if isinstance(arg.func, ast.Name) else arg.func.attr) == "cast" and len(arg.args) == 2:
+                    arg = arg.args[1]
+                reg = self.registry_of(g.module, arg)
+                if reg and not (isinstance(arg, ast.Name) and arg.id in g.params()):
+                    out += [x for x in reg if x not in out]
+                elif isinstance(arg, ast.Name) and arg.id in g.params():
+                    out += [x for x in self._param_registries(g, arg.id, depth + 1) if x not in out]
+        memo[key] = out
+        return out
+
+    def _registry_expr_classes(self, f: FuncInfo, e: ast.AST) -> Optional[list[str]]:
+        if isinstance(e, ast.Name) and e.id in f.params():
+            got = self._param_registries(f, e.id)
+            if got:
+                return got
+        return self.registry_of(f.module, e)
+
     def _local_registry_classes(self, f: FuncInfo, name: str) -> list[str]:
         out: list[str] = []
         m = f.module
@@ -86,9 +127,9 @@ class CallGraph:
             if isinstance(n, ast.Assign) and any(isinstance(t, ast.Name) and t.id == name for t in n.targets):
                 val = n.value
                 if isinstance(val, ast.Subscript):
-                    reg = self.registry_of(m, val.value)
+                    reg = self._registry_expr_classes(f, val.value)
                 elif isinstance(val, ast.Call) and isinstance(val.func, ast.Attribute) and val.func.attr == "get":
-                    reg = self.registry_of(m, val.func.value)
+                    reg = self._registry_expr_classes(f, val.func.value)
                 else:
                     reg = None
                 if reg:
